@@ -17,3 +17,23 @@ Proof.
   intros H Ho HV. destruct (dec_equals_exact_when_representable _ _ _ _ H Ho) as [Hd He].
   split; [exact Hd|]. exact (run_exact_refines_spec_valid init txs ds o He HV).
 Qed.
+
+(* C02 for the real arithmetic, on windows without splits and with ten-place
+   share counts: the ROUNDED scans compute the declarative rule *)
+From ACB Require Import Spec.SflRule Proofs.C02Scan Proofs.DecScan.
+
+Theorem dec_scan_eq_rule_without_splits bef t sold aft st r :
+  scan_inputs_small bef t sold aft st = true ->
+  sd_sorted aft -> sd_sorted_desc bef ->
+  sfl_info dec bef t sold aft st = Ok r ->
+  match r with
+  | Some s =>
+      sc_acq s = rule_acquired bef t aft /\
+      sc_eop s = rule_held_end (all_after_sale st sold) t aft /\
+      rule_superficial bef t aft (all_after_sale st sold)
+  | None => ~ rule_superficial bef t aft (all_after_sale st sold)
+  end.
+Proof.
+  intros Hs Ha Hb H. rewrite (dec_scan_exact_without_splits _ _ _ _ _ Hs) in H.
+  exact (sfl_info_rule bef t sold aft st r Ha Hb H).
+Qed.
